@@ -507,6 +507,39 @@ pub fn infer_and_advance<E: SimEnv>(
             slot_of[k] = Some(s);
         }
     }
+    // effective cancellations are visible too: a limit order only ever turns Cancelled through a cancel instruction,
+    // so an order that was not Cancelled before the step and is now was cancelled at the slot of one of the cancel
+    // instructions aimed at it (identical instructions are interchangeable: the first one still free takes the slot)
+    {
+        let mut seen: Vec<(usize, usize)> = Vec::new();
+        for ins in batch.iter() {
+            if let Ins::Cancel { asset, id } = ins {
+                if seen.contains(&(*asset, *id)) {
+                    continue;
+                }
+                seen.push((*asset, *id));
+                let rb = &rshadow.books[*asset];
+                if *id >= rb.orders.len() || rb.is_market[*id] || rb.orders[*id].status == CANCELLED {
+                    continue;
+                }
+                let o = env.book(*asset).order(*id);
+                if o.status != CANCELLED {
+                    continue;
+                }
+                if o.end < start || o.end >= start + n as u64 {
+                    return Infer::Violation(format!("order ({}, {}) was cancelled at {} which is not start+i for any i in 0..{} (start {})", asset, id, o.end, n, start));
+                }
+                let sl = (o.end - start) as usize;
+                if used[sl] {
+                    return Infer::Violation(format!("a cancellation and another instruction were both processed at time-stamp {}", o.end));
+                }
+                if let Some(k) = (0..n).find(|k| slot_of[*k].is_none() && batch[*k] == *ins) {
+                    used[sl] = true;
+                    slot_of[k] = Some(sl);
+                }
+            }
+        }
+    }
     let unknown: Vec<usize> = (0..n).filter(|k| slot_of[*k].is_none()).collect();
     // what the environment shows after the step (targets of the search)
     let assets = E::ASSETS;
@@ -579,8 +612,12 @@ pub fn infer_and_advance<E: SimEnv>(
                     c
                 }
             };
+            let branching = self.forced[slot].is_none();
             for k in cands {
-                self.nodes += 1;
+                // only genuine choices count against the budget (forced slots are a straight line)
+                if branching {
+                    self.nodes += 1;
+                }
                 if self.nodes > self.budget {
                     return Err(());
                 }
